@@ -92,6 +92,10 @@ def count_nodes(ev):
     return n
 
 
+# classes reported by the reference interpreter's trigger hooks -> the finding they are the trigger of
+CLASS_FINDING = {'rtf-empty-boolean': 'F-C01-empty-rtf-boolean'}
+
+
 def static_exclusions(case):
     """triggers of OPEN findings that belong to OTHER properties (C09/C10/C14/C15/C17), recognised on the stylesheet text.  Only findings
     that are open are excluded; each exclusion is counted in the evidence."""
@@ -190,6 +194,12 @@ def check(ctx, case):
     except RecursionError:
         ctx.counters['ref:recursion'] += 1
         return None
+    # reference-side triggers of open findings (recognised while the reference runs)
+    hit = [CLASS_FINDING[c] for c in sorted(trig.hit) if c in CLASS_FINDING and CLASS_FINDING[c] in ALL_OPEN]
+    if hit and ctx.tier != 'replay':
+        for h in hit:
+            ctx.excluded[h] += 1
+        return None
     mine = T.strip_top(X.dump(ref))
     nn = count_nodes(mine)
     ctx.note(case, len(kinds) >= 3 and nn >= 3, ['kinds:%d' % min(len(kinds), 12), 'modules:%d' % len([f for f in case['files'] if f.endswith('.xsl')])] +
@@ -241,7 +251,8 @@ def signature(case, detail):
     d = re.sub(r"/\d+", '/N', d)
     d = re.sub(r"'[^']*'|\"[^\"]*\"|\d+", '_', d)
     # the triggers of findings present in the case: a finding's signature_re requires its own (DESIGN 2.7 point 7)
-    return '%s|%s|%s' % (detail['what'], d[:80], ','.join(sorted(set(static_triggers(case)))))
+    trigs = set(static_triggers(case)) | {CLASS_FINDING[c] for c in detail.get('classes', []) if c in CLASS_FINDING}
+    return '%s|%s|%s' % (detail['what'], d[:80], ','.join(sorted(trigs)))
 
 
 # ------------------------------------------------------------------------------------------ reduction
